@@ -3,6 +3,8 @@ import WgslVerif.Check.C11
 import WgslVerif.Check.C03
 import WgslVerif.Check.C20
 import WgslVerif.Check.All
+import WgslVerif.Check.C08
+import WgslVerif.Check.C09
 /-
 Driver: reads `(case …)` lines from stdin (written by harness `dump`), prints one line per
 (property, run):   V|<prop>|<case id>|<run#>|<corr>|<spec>|<tags>
@@ -14,7 +16,7 @@ open WgslVerif
 def registry : List (String × (Ctx → Run → Verdict)) :=
   [ ("C11", CheckC11.check), ("C03", CheckC03.check),
     ("C20", fun c r => CheckC20.check c r r.visits),
-    ("ALL", CheckAll.check) ]
+    ("ALL", CheckAll.check), ("C08", CheckC08.check), ("C09", CheckC09.check) ]
 
 def decodeCase (s : Sexp) : Except String (Ctx × List Run) := do
   let fs ← match s with
